@@ -116,6 +116,15 @@ def run(tier, seed, procs=16):
         for start in STARTS[:4]:
             for unit in UNITS:
                 for wrap in (False, True): items.append(("from_list", (lst, start, unit, wrap)))
+    # "the requested unit": every unit the registry knows by a plain name in the dimensions the library uses (prefixed units included:
+    # compact symbols such as kt / cd / dB collide with other units, so the unit has to survive however the builder spells it)
+    many = []
+    for nm in ("kilotonne", "megatonne", "tonne", "gram", "milligram", "centiday", "day", "minute", "millisecond", "decibyte", "kilobyte", "terabyte", "petabyte",
+               "kilowatt_hour", "megawatt_hour", "joule", "kilowatt", "milliwatt", "cpu_core", "gpu", "percent", "kilometer", "kelvin", "hectare", "knot", "decibel"):
+        try: many.append(getattr(u, nm))
+        except Exception: pass
+    for unit in many: items.append(("from_list", ([1, 2.5, 3], STARTS[0], unit, False)))
+    for unit in many[:8]: items.append(("shape", ("linear", 30, STARTS[0], unit, (1, 10))))
     spans = [24, 30, 47.5, 24 * 8, 24 * 40] + ([24 * 400] if tier == "thorough" else [])
     freq_params = [("daily", None, None), ("daily", None, [0, 8, 23]), ("weekly", None, None), ("weekly", [0, 6], [9]), ("weekly", [3], [0, 12]),
                    ("monthly", None, None), ("monthly", [1, 29, 31], [7]), ("yearly", None, None), ("yearly", [60, 61, 366], [9]), ("yearly", [1, 59, 365], [0, 23])]
